@@ -112,6 +112,9 @@ func (f *Frame) callStatic(instr ssa.Instruction, callee *ssa.Function, bindings
 	// closures and synthetic wrappers are part of the enclosing text: inline
 	isClosure := callee.Parent() != nil
 	isWrapper := callee.Synthetic != "" && len(callee.Blocks) > 0 && callee.Pkg == nil || strings.HasPrefix(callee.Synthetic, "wrapper") || strings.HasPrefix(callee.Synthetic, "bound") || strings.HasPrefix(callee.Synthetic, "thunk")
+	if g.topC != nil && g.topC.InlineAll && len(callee.Blocks) > 0 && pkgOf(callee) == pkgOf(g.top) && f.depth < maxInlineDepth {
+		return f.inline(callee, bindings, st, args)
+	}
 	if ct != nil && !ct.Inline && !(isClosure && !hasCallerVisibleContract(ct)) {
 		return f.modularCall(instr, callee, ct, st, args, pos)
 	}
